@@ -12,7 +12,19 @@ git -C $MUT/repo checkout -q -f --detach "$(git -C /repo rev-parse HEAD)" && git
 git -C $MUT/repo apply "$P" 2>$MUT/apply.err || { echo "$(basename $D) APPLY-FAILED: $(head -2 $MUT/apply.err | tr '\n' ' ')"; exit 3; }
 rm -rf $MUT/engine && mkdir -p $MUT/engine && cp -r /verif/engine/. $MUT/engine/ && rm -rf $MUT/engine/target
 sed -i "s|path = \"/repo/fpdec-core\"|path = \"$MUT/repo/fpdec-core\"|; s|path = \"/repo\"|path = \"$MUT/repo\"|" $MUT/engine/fpmc/Cargo.toml $MUT/engine/c20drv/Cargo.toml $MUT/engine/c06miri/Cargo.toml
-( cd $MUT/engine && CARGO_NET_OFFLINE=true CARGO_TARGET_DIR=$MUT/target RUSTFLAGS="--cfg fpdec_verif" cargo build --release --offline ) >$MUT/build.log 2>&1 || { echo "$(basename $D) BUILD-FAILED"; grep -E '^error' -A8 $MUT/build.log | head -30; git -C $MUT/repo checkout -q -f -- .; exit 2; }
+FEATFLAGS=""
+bld() { ( cd $MUT/engine && CARGO_NET_OFFLINE=true CARGO_TARGET_DIR=$MUT/target RUSTFLAGS="--cfg fpdec_verif" cargo build --release --offline "$@" ); }
+if ! bld >$MUT/build.log 2>&1; then
+  # same fallback as ./run: the largest subset of the hidden-helper features that still compiles
+  ok="hidden-none"
+  for f in hidden-parse hidden-rounded hidden-floor; do try="${ok:+$ok,}$f"; if bld --no-default-features --features "$try" >$MUT/build-$f.log 2>&1; then ok="$try"; fi; done
+  if bld --no-default-features --features "$ok" >$MUT/build-fallback.log 2>&1; then
+    FEATFLAGS="--no-default-features --features $ok"; echo "$(basename $D) NOTE: engine built with hidden-helper features '${ok}' only ($(grep -m1 -E '^error' $MUT/build.log))"
+  else
+    echo "$(basename $D) BUILD-FAILED"; grep -E '^error' -A8 $MUT/build.log | head -30; git -C $MUT/repo checkout -q -f -- .; exit 2
+  fi
+fi
+export VERIF_FEATFLAGS="$FEATFLAGS"
 for ID in $CHECKS; do
   out=$(VERIF_REPO=$MUT/repo VERIF_ENGINE=$MUT/engine VERIF_OUT=$MUT/out $MUT/target/release/fpmc "$ID" quick 2>&1); rc=$?
   echo "$(basename $D) check=$ID exit=$rc violation_lines=$(echo "$out" | grep -c '^VIOLATION')"
@@ -20,7 +32,7 @@ for ID in $CHECKS; do
   if [ "$ID" = C08 ]; then   # the rkyv clause: two feature builds of the scratch engine
     for feat in rkyv rkyv,packed; do
       d=$MUT/target/feat-$(echo $feat | tr , -)
-      ( cd $MUT/engine && CARGO_NET_OFFLINE=true CARGO_TARGET_DIR=$d RUSTFLAGS="--cfg fpdec_verif" cargo build --release --offline --features $feat ) >$d.build.log 2>&1 || { echo "$(basename $D) check=C08R[$feat] BUILD-FAILED"; grep -E '^error' -A8 $d.build.log | head -20; continue; }
+      ( cd $MUT/engine && CARGO_NET_OFFLINE=true CARGO_TARGET_DIR=$d RUSTFLAGS="--cfg fpdec_verif" cargo build --release --offline $(if [ -z "$FEATFLAGS" ]; then echo "--features $feat"; else echo "${FEATFLAGS},$feat"; fi) ) >$d.build.log 2>&1 || { echo "$(basename $D) check=C08R[$feat] BUILD-FAILED"; grep -E '^error' -A8 $d.build.log | head -20; continue; }
       out=$(VERIF_REPO=$MUT/repo VERIF_ENGINE=$MUT/engine VERIF_OUT=$MUT/out $d/release/fpmc C08R quick 2>&1); rc=$?
       echo "$(basename $D) check=C08R[$feat] exit=$rc violation_lines=$(echo "$out" | grep -c '^VIOLATION')"
       echo "$out" | grep -A2 -E '^VIOLATION|MACHINERY' | head -7
